@@ -41,6 +41,10 @@
         → as for `log` (`rejected`: the iterator constructor panics)
     @ mflat <rows> <cols> <n>            Matrix::from_flat_row_major((rows, cols), 1..=n)
     @ mempty <rows> <cols>               Matrix::empty(7, (rows, cols))
+    @ mnew <R>x<C>                       Matrix with the elements 1..R*C; then lines
+    m <operation of Driver.C11>          insert_row(_with), insert_column(_with), remove_row,
+                                         remove_column, retain_mut … with valid or invalid arguments
+        → <ok|panic> <R>x<C> len=<stored> use=<items of a walk over the matrix left behind>
         → ok <rows>x<cols> len=<stored> use=<items of a row-major walk> | panic
 
   The part before `##` is what the property speaks about (outcome, and the object being
@@ -50,15 +54,21 @@
 import EasyMl.Model.Survivor
 import Driver.Parse
 import Driver.C09
+import Driver.C11
 
 namespace Driver.C10
 open EasyMl EasyMl.Survivor Driver
 
 abbrev T := Tensor String Nat
 
-abbrev State := Option T
+/-- the caller's tensor and (for the matrix lines) the caller's matrix -/
+structure St where
+  t : Option T
+  m : Option (Matrix Nat)
 
-def init : State := none
+abbrev State := St
+
+def init : State := ⟨none, none⟩
 
 /-! parsing -/
 
@@ -122,7 +132,7 @@ def iterData (t : T) : Option (List Nat) :=
 
 /-- the state as the property sees it: shape, stored element count, row-major elements;
     the iterator-level reading must agree (C09/C01 theorems) -/
-def showState : State → String
+def showState : Option T → String
   | none => "none"
   | some t =>
     let spec := s!"shape={showShape t.shape} len={t.data.length} data={showNats t.data}"
@@ -172,7 +182,7 @@ def showMatrix (m : Matrix Nat) : String :=
     | .panic k => s!"panic({k})"
   s!"ok {m.rows}x{m.columns} len={m.data.length} use={used}"
 
-def step (s : State) (toks : List String) : State × String :=
+def stepT (s : Option T) (toks : List String) : Option T × String :=
   match toks with
   | ["@", "mlog", r, c, order, fl] =>
     match r.toNat?, c.toNat?, parseOrder order, flavourMutable fl with
@@ -263,5 +273,42 @@ def step (s : State) (toks : List String) : State × String :=
       | some t =>
         let res := exec t op
         (some res.state, s!"{showOut res.out} {showState (some res.state)}{showKind res.out}")
+
+/-- the matrix left behind: size, stored elements, items of a walk over it -/
+def showMatrixState (m : Matrix Nat) : String :=
+  let used := match matrixAccesses (Iter.MSource.ofMatrix m.rows m.columns) .rowMajor
+      (m.data.length + 2) with
+    | .ok accs => toString accs.length
+    | .panic k => s!"panic({k})"
+  s!"{m.rows}x{m.columns} len={m.data.length} use={used}"
+
+def step (s : State) (toks : List String) : State × String :=
+  match toks with
+  | ["@", "mnew", sz] =>
+    match Driver.C11.parseSize sz with
+    | some (r, c) =>
+      match Matrix.fromFlatRowMajor r c (List.range' 1 (r * c)) with
+      | some m => (⟨none, some m⟩, s!"ok {showMatrixState m}")
+      | none => (⟨none, none⟩, "panic ## kind=explicit")
+    | none => (⟨none, none⟩, "bad-op")
+  | "m" :: rest =>
+    -- the C11 model of the resizing operations: the matrix left behind, also after a panic
+    match s.m, Driver.C11.parseOp rest with
+    | none, some _ => (s, "no-matrix")
+    | some m, some op =>
+      let res := Matrix.exec m op
+      let out := match res.panic with
+        | none => "ok"
+        | some .hook => "panic(hook)"
+        | some _ => "panic"
+      let kind := match res.panic with
+        | none => ""
+        | some k => s!" ## kind={k}"
+      ({ s with m := some res.state }, s!"{out} {showMatrixState res.state}{kind}")
+    | _, none => (s, "bad-op")
+  | _ =>
+    let r := stepT s.t toks
+    let m := if toks.head? = some "@" then none else s.m
+    (⟨r.1, m⟩, r.2)
 
 end Driver.C10
